@@ -49,6 +49,12 @@ collects the table symbols `sb` with `sb.Spec.IsBound(values...)` and, if any, c
 holds `loadMu` over it); store mutations are atomic (store mutex).  The last section (`cstep`)
 splits every load into "reads the stores" and "writes the table" with store mutations in between.
 
+Event delivery: `specEv` / `valEv` are *reliable FIFO queues* – every event `Watch`'s streams
+accept is delivered exactly once, in order (that is C13's `events_exact` about pkg/store/stream.go;
+here it is an assumption).  The very last section (`lstep`) is the same concurrent model over a
+stream that may drop an event equal to the one its consumer is still handling; it exists to show
+that the convergence theorems really depend on the assumption.
+
 Stores and the table are finite maps represented as association lists (`lookup` = first entry
 with the key, `put` = erase + cons, enumeration = keys then `lookup`), so no uniqueness invariant
 is needed.
@@ -432,5 +438,67 @@ def cstep (c : CSt) : COp → CSt
 def crun (c : CSt) : List COp → CSt
   | [] => c
   | o :: os => crun (cstep c o) os
+
+/-! ### a lossy stream: what the convergence theorems assume away -/
+
+/-- The kind of the event a store mutation emits (0 insert, 1 update, 2 delete) and its id. -/
+def opKind : Op → Nat
+  | .insSpec _ | .insVal _ => 0
+  | .updSpec _ | .updVal _ => 1
+  | _ => 2
+
+def opId : Op → Nat
+  | .insSpec s | .updSpec s => s.id
+  | .insVal v | .updVal v => v.id
+  | .delSpec i | .delVal i => i
+  | _ => 0
+
+/-- State of the lossy model: the concurrent state, which consumer is inside a `Load`
+(0 none, 1 the spec consumer, 2 the value consumer), the `{op,id}` event most recently handed to
+each consumer, and the op kinds of the queued events (the queues of `St` carry ids only). -/
+structure LSt where
+  c : CSt
+  who : Nat := 0
+  lastSpec : Option (Nat × Nat) := none
+  lastVal : Option (Nat × Nat) := none
+  kindsSpec : List Nat := []
+  kindsVal : List Nat := []
+
+/-- A step of the concurrent model together with the pump's choice: `drop` = discard the event
+this step emits, allowed only when it equals the event most recently handed to the consumer of
+that stream, that consumer is still busy with it (inside its `Load`) and nothing else is queued. -/
+structure LOp where
+  op : COp
+  drop : Bool
+
+def lstep (l : LSt) (o : LOp) : LSt :=
+  let c' := cstep l.c o.op
+  match o.op with
+  | .store m =>
+    let ev := (opKind m, opId m)
+    if c'.st.specEv.length = l.c.st.specEv.length + 1 then
+      if o.drop && l.who == 1 && l.c.st.specEv.isEmpty && l.lastSpec == some ev then
+        { l with c := { c' with st := { c'.st with specEv := l.c.st.specEv } } }
+      else { l with c := c', kindsSpec := l.kindsSpec ++ [opKind m] }
+    else if c'.st.valEv.length = l.c.st.valEv.length + 1 then
+      if o.drop && l.who == 2 && l.c.st.valEv.isEmpty && l.lastVal == some ev then
+        { l with c := { c' with st := { c'.st with valEv := l.c.st.valEv } } }
+      else { l with c := c', kindsVal := l.kindsVal ++ [opKind m] }
+    else { l with c := c' }
+  | .beginSpec =>
+    match l.c.fl, l.c.st.specEv, l.kindsSpec with
+    | none, i :: _, k :: ks => { l with c := c', who := 1, lastSpec := some (k, i), kindsSpec := ks }
+    | _, _, _ => { l with c := c' }
+  | .beginVal =>
+    match l.c.fl, l.c.st.valEv, l.kindsVal with
+    | none, w :: _, k :: ks =>
+      { l with c := c', who := if c'.fl.isSome then 2 else 0, lastVal := some (k, w), kindsVal := ks }
+    | _, _, _ => { l with c := c' }
+  | .commit => { l with c := c', who := 0 }
+  | .beginLoad _ => { l with c := c' }
+
+def lrun (l : LSt) : List LOp → LSt
+  | [] => l
+  | o :: os => lrun (lstep l o) os
 
 end Uniflow.Runtime
